@@ -49,11 +49,12 @@ FindFrom(t, needle, from, ce) ==
 FindAll(t, cb, ce, needle) == FindFrom(t, needle, cb, ce)
 
 \* case folding of abstract characters: Lower(c) is a *sequence* because lower-casing can change the number of
-\* codepoints (32 = U+0130 lower-cases to 91 52 = 'i' + U+0307)
+\* codepoints (32 = U+0130 lower-cases to 91 52 = 'i' + U+0307) and the number of bytes in either direction
 Lower(c) == CASE c = 41 -> <<11>>      \* 'A' -> 'a'
               [] c = 61 -> <<21>>      \* 'B' -> 'b'
               [] c = 22 -> <<12>>      \* 'É' -> 'é'
               [] c = 32 -> <<91, 52>>
+              [] c = 43 -> <<101>>     \* Kelvin sign (3 bytes) -> 'k' (1 byte): lower-casing can also shrink
               [] OTHER -> <<c>>
 LowerSeq(s) == Flatten([i \in DOMAIN s |-> Lower(s[i])])
 
